@@ -25,12 +25,9 @@ impl Backend {
             return Ok(None);
         };
 
-        // Current text of the document, to end each symbol's range at the end of its last line
-        let content = self
-            .fixture_db
-            .file_cache
-            .get(&file_path)
-            .map(|c| c.clone());
+        // Current text of the document (cached, or read back from disk once the document was
+        // closed or evicted), to end each symbol's range at the end of its last line
+        let content = self.fixture_db.get_file_content(&file_path);
 
         // Collect all fixture definitions for this file
         let mut symbols: Vec<DocumentSymbol> = Vec::new();
